@@ -3,11 +3,14 @@
 // its `Driver` is reused unchanged, one instance per world.
 //
 //   world new [id=<n>|auto] [ctx=own|shared] [threads=<n>]   -> world <w> id=<id>   (w = creation ordinal, becomes current;
-//         threads = workers of the world's PRIVATE dispatcher, default 1; the shared dispatcher has 2)
+//         threads = workers of the world's PRIVATE dispatcher, default 1; the shared dispatcher has 2;
+//         reuse=<w>: the World object is constructed AT THE ADDRESS the destroyed world <w> occupied (every world lives in a
+//         raw storage block that outlives it: sequential worlds at one address, as with std::optional<World>::emplace))
 //   world drop <w>                             -> dropped <w>
 //   world churn <n> [ctx=own|shared]           -> churn n=<n> ids=<lo>..<hi> bad=<k>
-//         n times: construct an automatically numbered world (it takes an ordinal), create one entity, query it,
-//         destroy the world;
+//         n times: construct an automatically numbered world (it takes an ordinal; all n at ONE address; private
+//         dispatchers cycle through 1,2,3 workers), create one entity, query it, record a creation in a locked section,
+//         unlock, query it, destroy the world; lost = worlds whose deferred creation was not applied;
 //         bad = number of those worlds whose own handle was rejected by their own isEntityValid
 //   world reserve                              -> reserved id=<id>            (a bare World::nextWorldId())
 //   use <w>                                    -> ok
@@ -29,6 +32,7 @@ struct WorldSlot {
     bool alive = false;
     uint32_t id = 0;
     std::string last;          // observation after the previous op
+    void* block = nullptr;     // raw storage of the World object; kept after the world's destruction for `reuse=`
 };
 
 struct Worlds {
@@ -165,14 +169,29 @@ struct Worlds {
         }
     }
 
-    std::string create(bool automatic, uint32_t id, bool shared, uint32_t threads = 1) {
+    // ---- storage blocks: a World is placement-constructed into a raw block that outlives it --------------------------
+    std::vector<size_t> retained;       // dead ordinals whose block is still kept (bounded)
+    static void* newBlock() { return ::operator new(sizeof(World), std::align_val_t(alignof(World))); }
+    static void freeBlock(void* b) { if (b) ::operator delete(b, std::align_val_t(alignof(World))); }
+    void* takeBlock(long reuse) {
+        if (reuse >= 0 && static_cast<size_t>(reuse) < ws.size() && !ws[reuse].alive && ws[reuse].block) {
+            void* b = ws[reuse].block;
+            ws[reuse].block = nullptr;
+            retained.erase(std::remove(retained.begin(), retained.end(), static_cast<size_t>(reuse)), retained.end());
+            return b;
+        }
+        return newBlock();
+    }
+
+    std::string create(bool automatic, uint32_t id, bool shared, uint32_t threads = 1, long reuse = -1) {
         WorldSlot s;
         s.d = std::make_unique<Driver>();
         std::shared_ptr<Dispatcher> disp;
         WorldContext ctx = makeContext(shared, disp, threads);
         s.d->dispatcher = disp;
         s.d->threads = disp->threadCount();
-        s.d->world = automatic ? std::make_unique<World>(ctx) : std::make_unique<World>(ctx, WorldId::make(id));
+        s.block = takeBlock(reuse);
+        s.d->world.reset(automatic ? new (s.block) World(ctx) : new (s.block) World(ctx, WorldId::make(id)));
         s.alive = true;
         s.id = s.d->world->id().toInt();
         s.d->world_id = s.id;
@@ -197,9 +216,16 @@ struct Worlds {
     void dropSlot(size_t k) {
         auto& s = ws[k];
         if (s.d->agents.running) s.d->agents.stop(*s.d->dispatcher);
-        s.d->world.reset();
+        World* p = s.d->world.release();      // the storage block is ours, not the unique_ptr's
+        p->~World();
         s.d->dispatcher.reset();
         s.d.reset();
+        retained.push_back(k);
+        if (retained.size() > 32) {
+            freeBlock(ws[retained.front()].block);
+            ws[retained.front()].block = nullptr;
+            retained.erase(retained.begin());
+        }
         s.last.clear();
         s.alive = false;
         live.erase(std::remove(live.begin(), live.end(), k), live.end());
@@ -207,13 +233,14 @@ struct Worlds {
         g_callbacks.clear();
     }
 
-    static bool parseCtx(const std::vector<std::string>& w, size_t from, bool& shared, bool& automatic, uint32_t& id, uint32_t& threads) {
+    static bool parseCtx(const std::vector<std::string>& w, size_t from, bool& shared, bool& automatic, uint32_t& id, uint32_t& threads, long& reuse) {
         for (size_t i = from; i < w.size(); ++i) {
             if (w[i] == "auto") automatic = true;
             else if (w[i].rfind("id=", 0) == 0) { automatic = false; id = static_cast<uint32_t>(std::stoul(w[i].substr(3))); }
             else if (w[i] == "ctx=own") shared = false;
             else if (w[i] == "ctx=shared") shared = true;
             else if (w[i].rfind("threads=", 0) == 0) threads = static_cast<uint32_t>(std::stoul(w[i].substr(8)));
+            else if (w[i].rfind("reuse=", 0) == 0) reuse = std::stol(w[i].substr(6));
             else return false;
         }
         return true;
@@ -239,9 +266,9 @@ struct Worlds {
         int operated = -1;
         if (w[0] == "world" && w.size() >= 2) {
             if (w[1] == "new") {
-                bool shared = false, automatic = true; uint32_t id = 0, threads = 1;
-                if (!parseCtx(w, 2, shared, automatic, id, threads) || threads < 1 || threads > 8) { out << "bad-op\n"; return; }
-                out << create(automatic, id, shared, threads) << "\n";
+                bool shared = false, automatic = true; uint32_t id = 0, threads = 1; long reuse = -1;
+                if (!parseCtx(w, 2, shared, automatic, id, threads, reuse) || threads < 1 || threads > 8) { out << "bad-op\n"; return; }
+                out << create(automatic, id, shared, threads, reuse) << "\n";
                 operated = cur;
             } else if (w[1] == "drop" && w.size() == 3) {
                 size_t k;
@@ -256,13 +283,15 @@ struct Worlds {
                 }
                 out << "\n";
             } else if (w[1] == "churn" && w.size() >= 3) {
-                bool shared = true, automatic = true; uint32_t id = 0, threads = 1;
-                if (!parseCtx(w, 3, shared, automatic, id, threads) || !automatic) { out << "bad-op\n"; return; }
+                bool shared = true, automatic = true; uint32_t id = 0, threads = 1; long reuse = -1;
+                if (!parseCtx(w, 3, shared, automatic, id, threads, reuse) || !automatic) { out << "bad-op\n"; return; }
                 size_t n = std::stoul(w[2]);
-                uint32_t lo = 0xffffffffu, hi = 0; size_t bad = 0;
+                uint32_t lo = 0xffffffffu, hi = 0; size_t bad = 0, lost = 0;
                 int keep = cur;
+                long prev = -1;
                 for (size_t i = 0; i < n; ++i) {
-                    create(true, 0, shared);
+                    create(true, 0, shared, 1 + static_cast<uint32_t>(i % 3), prev);
+                    prev = static_cast<long>(ws.size()) - 1;
                     auto& s = ws.back();
                     lo = std::min(lo, s.id); hi = std::max(hi, s.id);
                     s.d->exec({"create", "-"});
@@ -270,12 +299,20 @@ struct Worlds {
                     Entity e = s.d->issued.empty() ? Entity{} : s.d->issued.back();
                     ++n_own;
                     if (!m.isEntityValid(e) || e.worldId().toInt() != s.id) ++bad;
+                    // a creation recorded in a locked section is applied to THIS world when it is unlocked
+                    s.d->exec({"lock"});
+                    s.d->exec({"create", "A"});
+                    s.d->exec({"unlock"});
+                    Entity e2 = s.d->issued.size() < 2 ? Entity{} : s.d->issued.back();
+                    ++n_own;
+                    if (!m.isEntityValid(e2) || e2.worldId().toInt() != s.id) ++lost;
                     dropSlot(ws.size() - 1);
                 }
                 cur = keep;
                 if (n == 0) { lo = 0; hi = 0; }
-                out << "churn n=" << n << " ids=" << lo << ".." << hi << " bad=" << bad << "\n";
+                out << "churn n=" << n << " ids=" << lo << ".." << hi << " bad=" << bad << " lost=" << lost << "\n";
                 if (bad) out << "ORACLE own-handle-invalid: " << bad << " of " << n << " freshly created worlds rejected the handle they had just issued\n";
+                if (lost) out << "ORACLE deferred-lost: " << lost << " of " << n << " freshly created worlds did not apply the creation recorded in their locked section\n";
             } else if (w[1] == "reserve" && w.size() == 2) {
                 out << "reserved id=" << World::nextWorldId().toInt() << "\n";
             } else { out << "bad-op\n"; return; }
@@ -367,6 +404,7 @@ int main() {
         W.out.str("");
     }
     while (!W.live.empty()) W.dropSlot(W.live.back());
+    for (auto& sl : W.ws) Worlds::freeBlock(sl.block);
     std::cout << "stats ops=" << W.n_ops << " worlds=" << W.n_worlds << " max_live=" << W.max_live << " max_id=" << W.max_id
               << " frame_checks=" << W.n_frame << " foreign_checks=" << W.n_foreign << " own_checks=" << W.n_own << " archetype_handle_checks=" << W.n_alien << "\n";
     return 0;
